@@ -120,9 +120,15 @@ func c05Rules(p *core.Prog, r *core.Run) {
 		name string
 		a    assumption
 	}{
-		{"no TLS 1.3", boolAssume("h.tls13", false, func(e *core.Expr) bool { return e.Op == "field" && e.Obj == m.fCH["tls13"] && e.Args[0].Val == ssa.Value(m.helloP) })},
-		{"no ECH extension", cmpAssume("h.echExt == nil", "==", func(e *core.Expr) bool { return e.Op == "field" && e.Obj == m.fCH["echExt"] && e.Args[0].Val == ssa.Value(m.helloP) }, isConstName("nil"))},
-		{"no keys", cmpAssume("len(c.keys) == 0", "==", func(e *core.Expr) bool { return e.Op == "call" && e.Name == "len" && e.Args[0].Op == "field" && e.Args[0].Obj == m.fConn["keys"] }, isConstName("0"))},
+		{"no TLS 1.3", boolAssume("h.tls13", false, func(e *core.Expr) bool {
+			return e.Op == "field" && e.Obj == m.fCH["tls13"] && e.Args[0].Val == ssa.Value(m.helloP)
+		})},
+		{"no ECH extension", cmpAssume("h.echExt == nil", "==", func(e *core.Expr) bool {
+			return e.Op == "field" && e.Obj == m.fCH["echExt"] && e.Args[0].Val == ssa.Value(m.helloP)
+		}, isConstName("nil"))},
+		{"no keys", cmpAssume("len(c.keys) == 0", "==", func(e *core.Expr) bool {
+			return e.Op == "call" && e.Name == "len" && e.Args[0].Op == "field" && e.Args[0].Obj == m.fConn["keys"]
+		}, isConstName("0"))},
 	}
 	notRetry := boolAssume("isRetry", false, func(e *core.Expr) bool { return e.Val == ssa.Value(m.retryP) }).asContext()
 	for _, k := range abortKeys {
